@@ -35,7 +35,7 @@ HEADER_C = "# SPDX-FileCopyrightText: 2020 Jane\n"
 def bounds(tier, seed):
     return {"classes": list(CLASSES), "uses": USES, "provisions": PROVS,
             "representatives": "two representatives of each class",
-            "whole_list_trees": 3, "spdx_identifiers": len(inv.SPDX)}
+            "whole_list_trees": 11, "whole_list_provisions": ["txt", "md", "noext", "subdir", "plus-txt"], "spdx_identifiers": len(inv.SPDX)}
 
 
 def cases(tier, seed):
@@ -48,6 +48,9 @@ def cases(tier, seed):
                     yield {"cls": cls, "id": ident, "use": u, "prov": p}
     for mode in ("used+provided", "used-only", "provided-only"):
         yield {"whole": mode}
+    for prov in ("md", "noext", "subdir", "plus-txt"):
+        for mode in ("used+provided", "provided-only"):
+            yield {"whole": mode, "prov": prov}
 
 
 def expr_for(cls, ident, use):
@@ -130,7 +133,7 @@ def build(case):
     return recipe, uses, lic_files
 
 
-def build_whole(mode):
+def build_whole(mode, prov="txt"):
     recipe, uses, lic_files = {}, {}, []
     ids = sorted(inv.SPDX)
     for n, ident in enumerate(ids):
@@ -140,8 +143,10 @@ def build_whole(mode):
             recipe[path] = HEADER_C + f"# SPDX-License-Identifier: {expr}\n"
             uses[path] = [HELPER, ident] if ident in inv.SPDX_EXCEPTIONS else [ident]
         if mode != "used-only":
-            recipe[f"LICENSES/{ident}.txt"] = "t\n"
-            lic_files.append(f"LICENSES/{ident}.txt")
+            f = {"txt": f"LICENSES/{ident}.txt", "md": f"LICENSES/{ident}.md", "noext": f"LICENSES/{ident}", "subdir": f"LICENSES/sub/dir/{ident}.txt",
+                 "plus-txt": f"LICENSES/{ident}+.txt"}[prov]
+            recipe[f] = "t\n"
+            lic_files.append(f)
     if mode == "provided-only":
         recipe["src/only.py"] = HEADER_C + f"# SPDX-License-Identifier: {HELPER}\n"
         uses["src/only.py"] = [HELPER]
@@ -153,8 +158,8 @@ def build_whole(mode):
 def evaluate(case) -> R:
     r = R()
     if "whole" in case:
-        recipe, uses, lic_files = build_whole(case["whole"])
-        label = "whole:" + case["whole"]
+        recipe, uses, lic_files = build_whole(case["whole"], case.get("prov", "txt"))
+        label = "whole:" + case["whole"] + ("|" + case["prov"] if case.get("prov") else "")
     else:
         recipe, uses, lic_files = build(case)
         label = f"{case['cls']}|{case['use']}|{case['prov']}"
@@ -162,6 +167,13 @@ def evaluate(case) -> R:
     materialise(root, recipe)
     out, data = lint_json(root)
     if data is None:
+        if out.exc is None and out.exit_code == 2:
+            # every tree built here is a valid project: a usage/configuration error is the tool misreading LICENSES/
+            r.violation(f"lint-refuses-tree|{label}", f"tree {label}: lint refuses the project: {out.stderr[-300:]!r}")
+            r.outcome = "refused"
+            if "whole" in case:
+                r.tags.append("whole-list")
+            return r
         raise HarnessError(f"lint failed for {label}: {out.brief()}")
     want = inv.inventory(uses, lic_files)
     got = inv.observed(data, root)
@@ -193,7 +205,7 @@ def run(tier, seed):
     return finish(
         ID, "model_checking", MODULE, tier, seed, st, t0,
         rule=("complete product identifier class x way of use x way of provision, one real `reuse lint --json` per tree, all five inventory "
-              "categories and summary.used_licenses compared with refmodel.inventory; plus three trees over the whole bundled SPDX list; "
+              "categories and summary.used_licenses compared with refmodel.inventory; plus eleven trees over the whole bundled SPDX list (used and/or provided, five ways of provision); "
               "non-trivial = lint reports at least one inventory category"),
         bounds=bounds(tier, seed),
         assumptions=["the identifier of a LICENSES/ file is its name minus the last extension (whole name if that is an SPDX identifier)",
